@@ -38,6 +38,27 @@ theorem depth_bounded (look : Bytes → Lookup) (n : Bytes) (hn : DOLLAR ∉ n) 
     simp only [internalResolve, htok, expandMacro, expandCore, hself, hne, if_false]
     simp [ih false, bind, Except.bind]
 
+/-- The same when every hop of the cycle is an ARRAY (`vars.loop = ["$loop$"]`): the elements are resolved
+    one level deeper, so the limit is reached and the result is the recursion error. -/
+theorem depth_bounded_array (look : Bytes → Lookup) (n : Bytes) (hn : DOLLAR ∉ n) (hne : n ≠ [])
+    (hself : look n = .found (.arr [DOLLAR :: (n ++ [DOLLAR])]) true) :
+    ∀ fuel esc, internalResolve look fuel esc (DOLLAR :: (n ++ [DOLLAR])) = .error .recursion := by
+  have htok : tokenize (DOLLAR :: (n ++ [DOLLAR])) = [.lit [], .mac n, .lit []] := by
+    have := tokenize_macro [] n [] (by simp) hn
+    simpa [tokenize, tok] using this
+  intro fuel
+  induction fuel with
+  | zero => intro esc; rfl
+  | succ f ih =>
+    intro esc
+    simp only [internalResolve, htok, expandMacro, expandCore, hself, hne, if_false]
+    simp [resolveElems, ih false, bind, Except.bind]
+
+-- `loop = ["first", "$loop$"]`, from the entry level of ResolveArguments
+example : internalResolve
+    (resolveMacro [{ rname := [104], vars := [([108], .arr [[102], [36, 108, 36]])], attrs := [] }]) 14 false [36, 108, 36]
+    = .error .recursion := by decide
+
 /-- The recursion limit never changes a result: what resolves within a budget resolves to the same
     value within every larger budget (the limit can only turn a result into the recursion error). -/
 theorem fuel_monotone (look : Bytes → Lookup) (fuel : Nat) :
